@@ -186,6 +186,9 @@ def wl_cms(ctx, rng, case):
                 hist.append((kk, -n))
             else:
                 n = rng.choice([1, 1, 2, 9, 1000])
+                if case.index % 6 == 1 and rng.random() < 0.25:
+                    n = rng.choice([2**31 - 1, 2**31 - 1000, 2**31 + 5, 2**30])  # cells driven to (and back from) the int32 ceiling
+                    ctx.count("cms_histories_touching_the_int32_limit")
                 s.add(kk, n)
                 out[kk] += n
                 hist.append((kk, n))
@@ -446,7 +449,7 @@ PROP = Prop(
     setup=setup,
     teardown=teardown,
     finish=finish,
-    required=["programs.files_read_by_c_reader", "programs.histories_replayed_by_c_writer", "programs.histories_replayed_by_python_writer", "programs.c_headers_compiled",
+    required=["cms_histories_touching_the_int32_limit", "programs.files_read_by_c_reader", "programs.histories_replayed_by_c_writer", "programs.histories_replayed_by_python_writer", "programs.c_headers_compiled",
               "disagreements_checked"],
     shards={"quick": 4, "thorough": 16},
 )
